@@ -151,7 +151,7 @@ def gen_case(rng, tier, est=None, seeded=None):
             ops.append({"op": "construct", "fam": rng.choice(["isv", "jfa"]),
                         "rs": rng.randint(0, 1000)})
         elif r < 0.42:
-            ops.append({"op": "unrelated_fit", "what": rng.choice(["kmeans", "ivector", "isv"]),
+            ops.append({"op": "unrelated_fit", "what": rng.choice(["kmeans", "ivector", "isv", "featchunk"]),
                         "seed": rng.randint(0, 1000)})
         elif r < 0.50:
             # the same estimator class and configuration trained on OTHER data of the same shape,
@@ -176,6 +176,13 @@ def gen_case(rng, tier, est=None, seeded=None):
                 o["sched"] = gen_sched(rng)
             ops.append(o)
             fits_done += 1
+    if case["cfg"].get("seeded") and rng.random() < 0.5:
+        # seeded initialisers are the part of these trainers most exposed to process-wide
+        # settings: make sure another (feature-chunked Dask) training happens between two fits
+        fits = [i for i, o in enumerate(ops) if o["op"] == "fit"]
+        if len(fits) >= 2:
+            ops.insert(fits[1], {"op": "unrelated_fit", "what": "featchunk",
+                                 "seed": rng.randint(0, 1000)})
     case["chunks"] = chunks
     case["ops"] = ops
     # an "integer random_state" may be a Python int or any NumPy integer scalar
@@ -499,6 +506,13 @@ def _unrelated(o):
     rs = np.random.RandomState(o["seed"])
     if o["what"] == "kmeans":
         KMeansMachine(2, init_method="random", max_iter=2, random_state=o["seed"]).fit(rs.randn(8, 2))
+        return
+    if o["what"] == "featchunk":
+        # another estimator trained on a Dask array that is also chunked along the features
+        Xf = rs.randn(8, 4)
+        with dask.config.set(scheduler="synchronous"):
+            KMeansMachine(2, init_method=Xf[:2].copy(), max_iter=1).fit(
+                da.from_array(Xf, chunks=((5, 3), (2, 2))))
         return
     ubm = _tiny_ubm()
     stats = [ubm.acc_stats(rs.randn(3, 2)) for _ in range(4)]
